@@ -378,6 +378,9 @@ def replay_case(task):
     return base.generic_replay_case(FAMILIES, task)
 
 
+THOROUGH_KEEP = {'*': 1.0}      # see vf/runner.py (time: about 10 minutes per thorough tier)
+
+
 def cases(tier, seed):
     baselines = fresh_baselines()
     n = len(CORPUS) + 3          # + the three actions
@@ -391,10 +394,13 @@ def cases(tier, seed):
                     'params': {'k': 2, 'baselines': baselines, 'first': f},
                     'budget': 300.0 if tier == 'quick' else 600.0})
     if tier == 'thorough':
-        for f in range(n):
-            out.append({'name': 'k3:first=%d' % f, 'family': 'history',
-                        'params': {'k': 3, 'baselines': baselines, 'first': f},
-                        'budget': 2400.0, 'path_timeout': 60.0})
+        # three prints before the target: prints and target range over every
+        # other corpus value plus the three actions (time)
+        sub3 = list(range(0, len(CORPUS), 2)) + [ACTION_B, ACTION_F, ACTION_R]
+        for f in range(len(sub3)):
+            out.append({'name': 'k3:first=%d' % sub3[f], 'family': 'history',
+                        'params': {'k': 3, 'baselines': baselines, 'first': f, 'indices': sub3},
+                        'budget': 1200.0, 'path_timeout': 60.0})
     # symbolic width on a small sub-corpus, traced
     sub = [13, 8] if tier == 'quick' else [4, 13, 3, 8]
     out.append({'name': 'k1:sub-corpus|page', 'family': 'history',
@@ -407,8 +413,8 @@ def evidence(tier, seed, tasks, results):
     return {
         'coverage': {
             'bounds': {
-                'history': 'every sequence of up to %d prints (indices symbolic) before every target, over a corpus of %d values' % (
-                    2 if tier == 'quick' else 3, len(CORPUS)),
+                'history': 'every sequence of up to 2 prints (indices symbolic) before every target, over a corpus of %d values%s' % (
+                    len(CORPUS), '' if tier == 'quick' else '; sequences of 3 prints: prints and target over every other corpus value plus the three actions'),
                 'baseline': 'each value printed first in a fresh interpreter (subprocess) in this run',
                 'width': 'the value\'s own settings; 1..200 symbolic on a sub-corpus compared with the same call in reset state',
                 'mutation': 'canonical deep snapshot (types, container identities, contents, order) of every printed input before/after',
